@@ -1,8 +1,8 @@
 package main
 
 import (
-	"math/rand"
 	"fmt"
+	"math/rand"
 	"sort"
 	"strconv"
 	"strings"
@@ -421,7 +421,7 @@ func (w *world) replyFor(node string, a [][]byte) []byte {
 			if strings.Contains(string(k), "nil") {
 				items = append(items, resp.Nil)
 			} else {
-				items = append(items, resp.Bulk([]byte("V("+string(k)+")")))
+				items = append(items, fakeValue(string(k)))
 			}
 		}
 		return resp.Array(items...)
@@ -430,10 +430,20 @@ func (w *world) replyFor(node string, a [][]byte) []byte {
 	case "mset", "set":
 		return []byte("+OK\r\n")
 	case "get":
-		return resp.Bulk([]byte("V(" + key + ")"))
+		return fakeValue(key)
 	default:
 		return resp.Bulk([]byte("R(" + cmd + "," + key + ")"))
 	}
+}
+
+// the value a fake node holds for a key: V(<key>), 30 bytes longer for a key with the marker "big"
+// (two such values in one MGET exceed a small reply limit although each fragment stays below it)
+func fakeValue(key string) []byte {
+	v := "V(" + key + ")"
+	if strings.Contains(key, "big") {
+		v += strings.Repeat("x", 30)
+	}
+	return resp.Bulk([]byte(v))
 }
 
 func anyKeyContains(keys [][]byte, sub string) bool {
@@ -538,6 +548,9 @@ func (w *world) nextRequest(r *rng.R, c int) []byte {
 			sfx := string(rune('a' + i))
 			if r.Chance(10) {
 				sfx += "nil"
+			} else if r.Chance(15) {
+				sfx += "big"
+				w.tagset["big-value"] = true
 			}
 			args = append(args, key(sfx))
 		}
@@ -614,8 +627,8 @@ func layouts(r *rng.R) worldCfg {
 	if r.Chance(35) {
 		cfg.timeout = true
 	}
-	if r.Chance(10) {
-		cfg.limit = 60
+	if r.Chance(15) {
+		cfg.limit = []int{60, 60, 100}[r.Intn(3)]
 	}
 	return cfg
 }
